@@ -305,8 +305,12 @@ func Unfinished() int { return 0 }
 // finished or blocked with no timer left to fire) and returns how many goroutines exist besides the
 // caller.  Natively it waits until runtime.NumGoroutine has been stable for 150 ms (at most 5 s).
 func GoroutinesSettled() int {
+	window := SettleWindow
+	if window < 150*time.Millisecond {
+		window = 150 * time.Millisecond
+	}
 	last, stableSince := runtime.NumGoroutine(), time.Now()
-	deadline := time.Now().Add(5 * time.Second)
+	deadline := time.Now().Add(5*time.Second + 3*window)
 	for time.Now().Before(deadline) {
 		time.Sleep(10 * time.Millisecond)
 		n := runtime.NumGoroutine()
@@ -314,7 +318,7 @@ func GoroutinesSettled() int {
 			last, stableSince = n, time.Now()
 			continue
 		}
-		if time.Since(stableSince) >= 150*time.Millisecond {
+		if time.Since(stableSince) >= window {
 			break
 		}
 	}
@@ -328,6 +332,10 @@ const hangTimeout = 20 * time.Second
 // to the known finding kfID when inRegion holds (engine intrinsic; natively a no-op: the replay
 // runner reports a case that does not return as a hang).
 func OnHang(kfID string, inRegion bool) {}
+
+// SettleWindow: how long the goroutine count must be stable for GoroutinesSettled natively; a
+// harness whose environment sleeps (scripted pauses) sets it above its longest sleep.
+var SettleWindow time.Duration
 
 // VirtualNow is the discrete-event clock of the engine in nanoseconds (TIMERS_DES=1); natively -1.
 func VirtualNow() int64 { return -1 }
